@@ -198,6 +198,7 @@ class TermAlg:
                     vals[n] = self.eval(d, {})
             tv = TupV([vals[n] for n in names])
             tv.names = names
+            tv.cls = cname
             return tv
         ob = Rec(cname)
         init = self.prog.resolve_method(cname, "__init__")
@@ -457,8 +458,10 @@ class TermAlg:
             return ("ignore",)  # writes to the terminal: no value, no effect on the records
         if e.id in ("float", "int", "str", "list", "len", "isinstance", "abs", "enumerate", "sorted", "dict", "type", "all", "any", "zip", "range", "bool", "tuple", "set", "next", "iter", "reversed", "min", "max", "sum", "frozenset", "format"):
             return ("builtin", e.id)
-        if e.id in ("product", "reduce", "map"):
+        if e.id in ("product", "reduce", "map", "filter"):
             return ("builtin", e.id)
+        if fi is not None and fi.module.imports.get(e.id) in _STDLIB_ALIASES:
+            return ("builtin", _STDLIB_ALIASES[fi.module.imports[e.id]])  # from itertools import chain / combinations ...
         if fi is not None and e.id in fi.module.imports and not fi.module.imports[e.id].startswith("pacti"):
             return ("extmod", fi.module.imports[e.id])
         if e.id == "Var":
@@ -476,8 +479,16 @@ class TermAlg:
                     return self.call(fi, [], {}, self_val=b)
                 return ("bound", b, fi)
             raise AnalysisError("unknown attribute %s.%s" % (b.cls, e.attr))
+        if b == ("builtin", "chain") and e.attr == "from_iterable":
+            return ("builtin", "chain.from_iterable")
         if isinstance(b, TupV) and e.attr in getattr(b, "names", ()):
             return b.items[b.names.index(e.attr)]
+        if isinstance(b, TupV) and getattr(b, "cls", None):
+            m_ = self.prog.resolve_method(b.cls, e.attr)
+            if m_ is not None and m_.kind == "property":
+                return self.call(m_, [], {}, self_val=b)
+            if m_ is not None:
+                return ("bound", b, m_)
         if isinstance(b, tuple) and b and b[0] == "extmod":
             return ("extmod", b[1] + "." + e.attr)
         if isinstance(b, LinV):
@@ -663,6 +674,11 @@ class TermAlg:
                 finally:
                     if frame is not None:
                         self.fstack.pop()
+            if fn[0] == "extmod" and fn[1] == "operator.contains" and len(pos) == 2 and not kw:
+                return self.member(pos[1], pos[0], node)  # operator.contains(a, b) is `b in a`
+            if fn[0] == "extmod" and fn[1] in ("operator.eq", "operator.ne") and len(pos) == 2 and not kw:
+                same_ = self.same(pos[0], pos[1])
+                return same_ if fn[1] == "operator.eq" else not same_
             if fn[0] == "extmod" and fn[1].startswith("operator.") and fn[1].split(".")[1] in self._OPERATOR:
                 ar, op = self._OPERATOR[fn[1].split(".")[1]]
                 if len(pos) == ar and not kw:
@@ -754,6 +770,22 @@ class TermAlg:
                 return l or r
         raise AnalysisError("arithmetic %s outside the kernel fragment in %s" % (norm(node), self.fstack[-1].key))
 
+    def member(self, l, r, e) -> bool:
+        """`l in r`"""
+        if isinstance(r, SetV) and isinstance(l, (ListV, DictV)) and not isinstance(l, TupV):
+            raise Raised("TypeError")  # unhashable value looked up in a set
+        if isinstance(r, DictV) and isinstance(l, (ListV, DictV)) and not isinstance(l, TupV):
+            raise Raised("TypeError")  # unhashable value looked up in a dict
+        if isinstance(r, (ListV, TupV)):
+            return any(self.same(l, x) for x in r.items)
+        if isinstance(r, DictV):
+            return l in r.d
+        if isinstance(r, tuple) and r and r[0] == "str" and isinstance(l, tuple) and l and l[0] == "str" and "?" not in r[1] + l[1]:
+            return l[1] in r[1]  # substring test
+        if isinstance(r, (Rat, NoneT)) or isinstance(r, bool):
+            raise Raised("TypeError")  # `x in 3` / `x in None`
+        raise AnalysisError("membership %s" % norm(e))
+
     def x_Compare(self, e, env):
         if len(e.ops) != 1:
             raise AnalysisError("chained comparison %s" % norm(e))
@@ -761,20 +793,7 @@ class TermAlg:
         r = self.eval(e.comparators[0], env)
         op = e.ops[0]
         if isinstance(op, (ast.In, ast.NotIn)):
-            if isinstance(r, SetV) and isinstance(l, (ListV, DictV)) and not isinstance(l, TupV):
-                raise Raised("TypeError")  # unhashable value looked up in a set
-            if isinstance(r, DictV) and isinstance(l, (ListV, DictV)) and not isinstance(l, TupV):
-                raise Raised("TypeError")  # unhashable value looked up in a dict
-            if isinstance(r, (ListV, TupV)):
-                res = any(self.same(l, x) for x in r.items)
-            elif isinstance(r, DictV):
-                res = l in r.d
-            elif isinstance(r, tuple) and r and r[0] == "str" and isinstance(l, tuple) and l and l[0] == "str" and "?" not in r[1] + l[1]:
-                res = l[1] in r[1]  # substring test
-            elif isinstance(r, (Rat, NoneT)) or isinstance(r, bool):
-                raise Raised("TypeError")  # `x in 3` / `x in None`
-            else:
-                raise AnalysisError("membership %s" % norm(e))
+            res = self.member(l, r, e)
             return res if isinstance(op, ast.In) else not res
         if isinstance(op, (ast.Eq, ast.NotEq)):
             if isinstance(l, Rat) and isinstance(r, Rat):
@@ -975,6 +994,8 @@ class TermAlg:
         f = self.eval(e.func, env) if not (isinstance(e.func, ast.Attribute) and norm(e.func).startswith("logging.")) else ("ignore",)
         if f == ("ignore",):
             return NONE
+        if isinstance(f, tuple) and len(f) == 2 and f[0] == "extmod" and f[1] in _STDLIB_ALIASES and f[1] not in self.ext_stubs:
+            f = ("builtin", _STDLIB_ALIASES[f[1]])  # functools.reduce / itertools.product ... : the same functions, qualified
         if isinstance(f, tuple) and f == ("builtin", "isinstance") and len(e.args) == 2 and isinstance(e.args[1], ast.Name) and self.fstack and e.args[1].id not in env:
             # the kinds named through a module-level constant: `_SYMBOL_TYPES = (str, sympy.Symbol)`
             lit = self.fstack[-1].module.assigns.get(e.args[1].id)
@@ -1231,7 +1252,26 @@ class TermAlg:
                     r = int(rep.as_const()) if rep is not None else 1
                     import itertools as _it
 
-                    return ListV([TupV(list(t)) for t in _it.product(self.iterate(pos[0], e), repeat=r)])
+                    return ListV([TupV(list(t)) for t in _it.product(*[self.iterate(x, e) for x in pos], repeat=r)])
+                if n in ("chain", "chain.from_iterable"):
+                    parts_ = [self.iterate(x, e) for x in (pos if n == "chain" else self.iterate(pos[0], e))]
+                    return ListV([y for part in parts_ for y in part])
+                if n == "combinations" and len(pos) == 2 and isinstance(pos[1], Rat) and pos[1].as_const() is not None:
+                    import itertools as _it
+
+                    return ListV([TupV(list(t)) for t in _it.combinations(self.iterate(pos[0], e), int(pos[1].as_const()))])
+                if n == "islice" and len(pos) in (2, 3) and all(isinstance(x, (Rat, NoneT)) for x in pos[1:]):
+                    import itertools as _it
+
+                    bounds_ = [None if isinstance(x, NoneT) else int(x.as_const()) for x in pos[1:]]
+                    return ListV(list(_it.islice(self.iterate(pos[0], e), *bounds_)))
+                if n in ("filter", "filterfalse") and len(pos) == 2:
+                    keep_ = n == "filter"
+                    if isinstance(pos[0], NoneT):
+                        return ListV([x for x in self.iterate(pos[1], e) if self.truth(x) == keep_])
+                    return ListV([x for x in self.iterate(pos[1], e) if self.truth(self.apply(pos[0], [x], {}, e)) == keep_])
+                if n == "starmap" and len(pos) == 2:
+                    return ListV([self.apply(pos[0], list(self.iterate(t, e)), {}, e) for t in self.iterate(pos[1], e)])
                 if n == "reduce":
                     fn, seq = pos[0], list(self.iterate(pos[1], e))
                     acc = pos[2] if len(pos) > 2 else seq.pop(0)
@@ -1250,6 +1290,20 @@ class TermAlg:
         if isinstance(f, tuple) and f and f[0] == "builtin" and f[1] == "type":
             return ("type",)
         raise AnalysisError("call %s outside the kernel fragment in %s" % (norm(e), self.fstack[-1].key))
+
+
+_STDLIB_ALIASES = {
+    "functools.reduce": "reduce",
+    "itertools.product": "product",
+    "itertools.chain": "chain",
+    "itertools.chain.from_iterable": "chain.from_iterable",
+    "itertools.combinations": "combinations",
+    "itertools.islice": "islice",
+    "itertools.filterfalse": "filterfalse",
+    "itertools.starmap": "starmap",
+    "builtins.map": "map",
+    "builtins.filter": "filter",
+}
 
 
 class _Brk(Exception):
